@@ -455,8 +455,9 @@ namespace net
                 continue;
               z3::expr diff = z.zx(th, j) - z.zx(th, i);
               if (th == IDL)
-                diff = z3::to_real(diff);
-              ors.push_back(dd.e < 0 ? diff >= z.zq(dd.r) : diff > z.zq(dd.r));
+                ors.push_back(diff > z.ctx.int_val(dd.r.get_num().get_str().c_str()));
+              else
+                ors.push_back(dd.e < 0 ? diff >= z.zq(dd.r) : diff > z.zq(dd.r));
             }
         if (ors.empty())
           return;
